@@ -182,62 +182,88 @@ func checkC12(r *Run) {
 	}
 	r.Check("C12-R5", cr+": the forced extra input is appended to the spends", r.P.Pos(fn.Pos()), extraAppend != nil, "")
 	nAddr := 0
-	for _, st := range ff.StoreFacts() {
-		sto, ok := st.In.(*ssa.Store)
-		if !ok {
-			continue
-		}
-		call, ok := sto.Val.(*ssa.Call)
-		if !ok || calleeName(&call.Call) != "cipher.Address.Bytes" {
-			continue
-		}
-		nAddr++
-		// the slice whose owners are collected
-		var X ssa.Value
-		var walkv func(v ssa.Value, d int)
-		walkv = func(v ssa.Value, d int) {
-			if d > 6 || X != nil {
-				return
+	// the owner collection may live in create itself or in a single-use helper it calls (then the helper's
+	// parameter is mapped back to the argument create passes)
+	type ownerScan struct {
+		fn   *ssa.Function
+		site ssa.CallInstruction // call in create (nil when fn is create)
+	}
+	scans := []ownerScan{{fn, nil}}
+	for _, b := range fn.Blocks {
+		for _, in := range b.Instrs {
+			if ci, ok := in.(ssa.CallInstruction); ok {
+				if h := ci.Common().StaticCallee(); h != nil && r.P.singleUse(h) {
+					scans = append(scans, ownerScan{h, ci})
+				}
 			}
-			switch x := v.(type) {
-			case *ssa.UnOp:
-				walkv(x.X, d+1)
-			case *ssa.FieldAddr:
-				walkv(x.X, d+1)
-			case *ssa.Field:
-				walkv(x.X, d+1)
-			case *ssa.IndexAddr:
-				X = x.X
-			case *ssa.Alloc:
-				// range value spilled to a local: follow the store in the same block
-				for _, rf := range *x.Referrers() {
-					if s2, ok := rf.(*ssa.Store); ok && s2.Addr == x && s2.Block() == sto.Block() {
-						walkv(s2.Val, d+1)
+		}
+	}
+	for _, sc := range scans {
+		sff := r.P.Facts(sc.fn)
+		for _, st := range sff.StoreFacts() {
+			sto, ok := st.In.(*ssa.Store)
+			if !ok {
+				continue
+			}
+			call, ok := sto.Val.(*ssa.Call)
+			if !ok || calleeName(&call.Call) != "cipher.Address.Bytes" {
+				continue
+			}
+			nAddr++
+			// the slice whose owners are collected
+			var X ssa.Value
+			var walkv func(v ssa.Value, d int)
+			walkv = func(v ssa.Value, d int) {
+				if d > 6 || X != nil {
+					return
+				}
+				switch x := v.(type) {
+				case *ssa.UnOp:
+					walkv(x.X, d+1)
+				case *ssa.FieldAddr:
+					walkv(x.X, d+1)
+				case *ssa.Field:
+					walkv(x.X, d+1)
+				case *ssa.IndexAddr:
+					X = x.X
+				case *ssa.Alloc:
+					// range value spilled to a local: follow the store in the same block
+					for _, rf := range *x.Referrers() {
+						if s2, ok := rf.(*ssa.Store); ok && s2.Addr == x && s2.Block() == sto.Block() {
+							walkv(s2.Val, d+1)
+						}
 					}
 				}
 			}
-		}
-		walkv(call.Call.Args[0], 0)
-		reaches := false
-		seen := map[ssa.Value]bool{}
-		var up func(v ssa.Value)
-		up = func(v ssa.Value) {
-			if v == nil || seen[v] {
-				return
-			}
-			seen[v] = true
-			if v == ssa.Value(extraAppend) {
-				reaches = true
-			}
-			if ph, ok := v.(*ssa.Phi); ok {
-				for _, e := range ph.Edges {
-					up(e)
+			walkv(call.Call.Args[0], 0)
+			if prm, ok := X.(*ssa.Parameter); ok && sc.site != nil {
+				for i, pp := range sc.fn.Params {
+					if pp == prm && i < len(sc.site.Common().Args) {
+						X = sc.site.Common().Args[i]
+					}
 				}
 			}
+			reaches := false
+			seen := map[ssa.Value]bool{}
+			var up func(v ssa.Value)
+			up = func(v ssa.Value) {
+				if v == nil || seen[v] {
+					return
+				}
+				seen[v] = true
+				if v == ssa.Value(extraAppend) {
+					reaches = true
+				}
+				if ph, ok := v.(*ssa.Phi); ok {
+					for _, e := range ph.Edges {
+						up(e)
+					}
+				}
+			}
+			up(X)
+			lp := sff.innermost[sto.Block()]
+			r.Check("C12-R5", cr+": the automatic change address is chosen among the owners of all spends including the forced extra input", r.P.Pos(sto.Pos()), X != nil && extraAppend != nil && reaches && lp != nil && sff.everyIteration(sto.Block(), lp), "the owner list ranges over "+trunc(ff.Term(X), 120))
 		}
-		up(X)
-		lp := ff.innermost[sto.Block()]
-		r.Check("C12-R5", cr+": the automatic change address is chosen among the owners of all spends including the forced extra input", r.P.Pos(sto.Pos()), X != nil && extraAppend != nil && reaches && lp != nil && ff.everyIteration(sto.Block(), lp), "the owner list ranges over "+trunc(ff.Term(X), 120))
 	}
 	r.Check("C12-R5", cr+": owner-collection sites", "", nAddr == 1, "")
 	r.Check("C12-R5", cr+": PushOutput sites", "", nOut == 3, "")
